@@ -88,14 +88,15 @@ class Built:
     """one materialisation of a top-level spec {"files": {...}, "root": schema-spec}; callable defaults log every
     evaluation in self.log as (counter id, returned value)"""
 
-    def __init__(self, top, tmp):
+    def __init__(self, top, tmp, populate=True):
         import cincoconfig
         self.cc = cincoconfig
         self.top, self.tmp, self.log, self.counts, self.types, self.docs = top, tmp, [], {}, {}, {}
-        for name, content in (top.get("files") or {}).items():
+        self.history, self.warm = [], False
+        for name, content in ((top.get("files") or {}) if populate else {}).items():
             with open(os.path.join(tmp, name), "wb") as fp:
                 fp.write(content.encode())
-        for fmt in FORMATS:  # includable documents: an empty tree and a tree that sets the witness field `w`
+        for fmt in FORMATS if populate else ():  # includable documents: an empty tree
             with open(os.path.join(tmp, "inc0." + fmt), "wb") as fp:
                 fp.write(self.cc.ConfigFormat.get(fmt).dumps(None, {}))
         self.schema = self.field(top["root"])
@@ -184,6 +185,37 @@ SUBKINDS = [
                                   ["z", {"t": "float"}]]}}),
 ]
 FILES = {"f0.txt": "zero", "f1.txt": "one", "f2.txt": "two"}
+
+# container kinds for in-place mutation histories: (name, field spec, constant default, counter kind | None,
+#   [mutations (nav inside the value, method, args)], [assigned, stored, basic], rejected value)
+_STR, _INT = {"t": "string"}, {"t": "int"}
+INPLACE = [
+    # (d) flat containers: mutate in place while the key stays not user-defined, then reset / fresh
+    ("list", {"t": "list"}, [1, "a"], "list", [[[], "append", [5]], [[], "clear", []]], [[2, 3]] * 3, "abc"),
+    ("list_int", {"t": "list", "item": _INT}, [1, 2], "list_int", [[[], "append", [5]], [[], "setitem", [0, 9]]], [[3]] * 3, [1, "x"]),
+    ("list_schema", {"t": "list", "item": ITEM}, [{"q": 1}], "list_schema",
+     [[[0], "setattr", ["q", 5]], [[], "append", [{"q": 4}]]], [[{"q": 2, "r": "z"}]] * 3, [{"q": "x"}]),
+    ("dict", {"t": "dict"}, {"k": 1}, "dict", [[[], "setitem", ["zz", 5]], [[], "clear", []]], [{"a": 2}] * 3, [1]),
+    ("dict_typed", {"t": "dict", "kf": _STR, "vf": _INT}, {"k": 1}, "dict_typed",
+     [[[], "setitem", ["zz", 5]], [[], "pop", ["k"]]], [{"a": 2}] * 3, {"a": "x"}),
+    # (c) constant defaults with nested mutable values, untyped and typed
+    ("list_untyped[dict]", {"t": "list"}, [{"a": 1}], None, [[[0], "setitem", ["zz", 9]], [[0], "clear", []]], [[{"b": 2}]] * 3, "abc"),
+    ("list_untyped[list]", {"t": "list"}, [[1]], None, [[[0], "append", [9]], [[], "append", [[7]]]], [[[2]]] * 3, "abc"),
+    ("dict_untyped[list]", {"t": "dict"}, {"k": [1]}, None, [[["k"], "append", [9]], [[], "setitem", ["zz", [1]]]], [{"a": [2]}] * 3, [1]),
+    ("dict_untyped[dict]", {"t": "dict"}, {"k": {"n": 1}}, None, [[["k"], "setitem", ["zz", 9]], [["k"], "clear", []]], [{"a": {"b": 2}}] * 3, [1]),
+    ("list<dict>", {"t": "list", "item": {"t": "dict"}}, [{"a": 1}], None, [[[0], "setitem", ["zz", 9]], [[0], "clear", []]], [[{"b": 2}]] * 3, [5]),
+    ("list<list>", {"t": "list", "item": {"t": "list"}}, [[1]], None, [[[0], "append", [9]], [[0], "clear", []]], [[[2]]] * 3, [5]),
+    ("list<list<int>>", {"t": "list", "item": {"t": "list", "item": _INT}}, [[1]], None,
+     [[[0], "append", [9]], [[], "append", [[7]]]], [[[2]]] * 3, [["x"]]),
+    ("list<any>", {"t": "list", "item": {"t": "any"}}, [{"a": 1}, [2]], None, [[[0], "setitem", ["zz", 9]], [[1], "append", [9]]], [[{"b": 2}]] * 3, "abc"),
+    ("dict<str,list>", {"t": "dict", "kf": _STR, "vf": {"t": "list"}}, {"k": [1]}, None,
+     [[["k"], "append", [9]], [[], "setitem", ["zz", [1]]]], [{"a": [2]}] * 3, {"a": 5}),
+    ("dict<str,dict>", {"t": "dict", "kf": _STR, "vf": {"t": "dict"}}, {"k": {"n": 1}}, None,
+     [[["k"], "setitem", ["zz", 9]], [["k"], "clear", []]], [{"a": {"b": 2}}] * 3, {"a": 5}),
+    ("dict<str,list<int>>", {"t": "dict", "kf": _STR, "vf": {"t": "list", "item": _INT}}, {"k": [1]}, None,
+     [[["k"], "append", [9]], [["k"], "clear", []]], [{"a": [2]}] * 3, {"a": ["x"]}),
+    ("dict<str,any>", {"t": "dict", "kf": _STR}, {"k": [1]}, None, [[["k"], "append", [9]], [[], "setitem", ["zz", {"n": 1}]]], [{"a": [2]}] * 3, [1]),
+]
 
 
 def expose(ty, declared):
@@ -358,6 +390,7 @@ OBLIGATION = {
     "loads": "core:Config.loads/post:C12.loaded-is-user-defined",
     "reset": "support:reset_value/post:C12.restores-default-and-mark",
     "ctor": "core:Config.__init__/post:C12.keywords-user-defined-rest-default",
+    "mut": "core:Config._default_value_keys/frame:C12.inplace-mutation-is-not-an-assignment",
 }
 
 
@@ -372,7 +405,9 @@ def run_sequence(bt, top, ops):
     """returns (status, info): status 'ok' | 'skip' (an op was not accepted/rejected as the alphabet assumes, which is
     not C12's business) | 'fail' with info = (aspect, message)"""
     model = Model(top)
-    bt.schema()  # warm-up: the configuration under test is never the first one built from the schema
+    if not bt.history and not bt.warm:
+        bt.schema()  # warm-up: the configuration under test is never the first one built from the schema
+        bt.warm = True
     del bt.log[:]
     cfg = bt.schema()
     model.set_defaults("")
@@ -404,6 +439,17 @@ def run_sequence(bt, top, ops):
                 cfg.loads(_doc(bt, op), op["fmt"])
             elif kind == "reset":
                 bt.cc.reset_value(cfg, op["path"])
+            elif kind == "mut":
+                obj = cfg[op["path"]]
+                for step in op["nav"]:
+                    obj = obj[step]
+                args = dec(op["args"], bt.tmp)
+                if op["meth"] == "setitem":
+                    obj[args[0]] = args[1]
+                elif op["meth"] == "setattr":
+                    setattr(obj, args[0], args[1])
+                else:
+                    getattr(obj, op["meth"])(*args)
             elif kind == "ctor":
                 del bt.log[:]
                 mark = 0
@@ -424,6 +470,9 @@ def run_sequence(bt, top, ops):
             model.effects(op["effects"])
         elif kind == "reset":
             model.default(op["path"])
+        elif kind == "mut":
+            # an in-place mutation is not an assignment: the mark stays, the value is whatever the mutation made it
+            model.e[op["path"]] = dict(model.e[op["path"]], any=True)
         model.resolve_pending(bt.log[mark:])
         if before is not None:
             after = snapshot(cfg)
@@ -447,6 +496,8 @@ def run_sequence(bt, top, ops):
         if ent.get("sub"):
             if not isinstance(value, bt.cc.Config):
                 return "fail", ("value:" + _aspect(ops, path), "%s is not a configuration: %s" % (path, show(value)))
+            continue
+        if ent.get("any"):
             continue
         if ent["allowed"] is not None:
             if not any(matches(value, exp, bt.tmp) for exp in ent["allowed"]):
@@ -502,6 +553,24 @@ def kind_alphabet(model, tpath, oks, bad, fmt, is_include):
         {"op": "set", "path": wpath, "value": 9, "effects": [{"path": wpath, "stored": 9}]},
         {"op": "reset", "path": wpath},
         {"op": "ctor", "kw": enc(kw), "effects": enc(eff(kw, {tpath: ok1[1]}))},
+    ]
+
+
+def inplace_alphabet(model, tpath, muts, ok, bad):
+    """8 operations: two in-place mutations of the value held by `tpath` (the key stays not user-defined), reset,
+    a FRESH configuration, accepted / rejected assignment, witness assignment, load_tree"""
+    par = tpath.rpartition(".")[0]
+    wpath = (par + "." if par else "") + "w"
+    tree = nest(tpath, ok[2])
+    return [
+        {"op": "mut", "path": tpath, "nav": muts[0][0], "meth": muts[0][1], "args": enc(muts[0][2])},
+        {"op": "mut", "path": tpath, "nav": muts[1][0], "meth": muts[1][1], "args": enc(muts[1][2])},
+        {"op": "reset", "path": tpath},
+        {"op": "ctor", "kw": {}, "effects": []},
+        {"op": "set", "path": tpath, "value": enc(ok[0]), "effects": [{"path": tpath, "stored": enc(ok[1])}]},
+        {"op": "bad", "path": tpath, "value": enc(bad)},
+        {"op": "set", "path": wpath, "value": 9, "effects": [{"path": wpath, "stored": 9}]},
+        {"op": "load_tree", "tree": enc(tree), "effects": enc(effects_of(model, tree, "", {tpath: ok[1]}))},
     ]
 
 
@@ -591,6 +660,14 @@ def _plan(tier):
                 idx += 1
                 plans.append({"label": "%s/%s/d%d" % (name, dkind, depth), "wit": "%s/%s" % (name, dkind), "top": top,
                               "alpha": ("kind", tpath, oks, bad, fmt, name == "include"), "depth": depth})
+    for name, fspec, const, ckind, muts, ok, bad in INPLACE:
+        for dkind in ("const", "callable") if ckind else ("const",):
+            for depth in (1, 2):
+                ty = name if name in ("list_schema",) else None
+                tspec = kind_spec(ty, fspec, const, ckind, dkind, "ip.%s" % name)
+                plans.append({"label": "inplace:%s/%s/d%d" % (name, dkind, depth), "wit": "inplace:%s/%s" % (name, dkind),
+                              "top": wrap("t", tspec, depth), "depth": depth,
+                              "alpha": ("inplace", ["t", "a.t"][depth - 1], muts, ok, bad)})
     for name, sspec in SUBKINDS:
         for depth in (1, 2):
             top = wrap("t", dict(sspec), depth)
@@ -611,6 +688,8 @@ def _alphabet(plan):
         return kind_alphabet(model, *alpha[1:])
     if alpha[0] == "sub":
         return sub_alphabet(model, *alpha[1:])
+    if alpha[0] == "inplace":
+        return inplace_alphabet(model, *alpha[1:])
     return mix_alphabet(model, alpha[1])
 
 
@@ -636,6 +715,12 @@ def _selected(plan, n_ops, tier):
             yield from (s for s in _red(4) if len(s) == 4)
     elif kind == "sub":
         yield from _sequences(n_ops, 3)
+    elif kind == "inplace":
+        if plan["depth"] == 1 or tier != "quick":
+            yield from _sequences(n_ops, 3)
+            yield from itertools.product([0, 2, 3, 4], repeat=4)
+        else:
+            yield from _sequences(n_ops, 2)
     else:
         yield from _sequences(n_ops, 3 if (tier != "quick" or plan["label"] == "mix/json") else 2)
 
@@ -653,11 +738,15 @@ def rac(tier, seed):
              "attribute, set by dotted path, rejected set, reset target, load_tree partial, loads partial (format "
              "rotates over the 5 formats), set witness sibling, reset witness, constructor keyword}; plus a mixed "
              "depth-3 schema (nested Schema, ConfigType, typed list/dict, list of Schema, challenge, dynamic) with a "
-             "17-letter alphabet incl. map assignment / reset of whole sub-configurations; reference model compared "
-             "after the last op (prefix closed); distinct = (schema, op sequence)",
+             "17-letter alphabet incl. map assignment / reset of whole sub-configurations; plus in-place histories for 17 container kinds "
+             "(flat list/dict typed+untyped, list of Schema, constant defaults with nested mutable values: list of "
+             "dict/list, dict of list/dict, typed with pass-through or typed inner fields) over an 8-letter alphabet {2 "
+             "in-place mutations of the held value, reset, FRESH configuration, set, rejected set, set witness, "
+             "load_tree}; reference model compared after the last op (prefix closed); distinct = (schema, op sequence)",
         bound="quick: depth 1 all sequences <= 3; depth 2 <= 2; depth 3 <= 1 plus all sequences of length 2..3 over the "
               "5-letter sub-alphabet {set, rejected set, reset, load_tree, set witness} and all of length 4 over its "
-              "first 4 letters; sub-config kinds <= 3; mixed "
+              "first 4 letters; sub-config kinds <= 3; in-place kinds depth 1: <= 3 + "
+              "length 4 over {mutate, reset, fresh, set}, depth 2: <= 2; mixed "
               "schema <= 2 per format (<= 3 for json); thorough: all <= 3 everywhere + length 4 reduced + seeded random length 5-6",
         tier=tier, seed=seed)
     with sandbox() as tmp:
@@ -669,10 +758,13 @@ def rac(tier, seed):
             bt = Built(plan["top"], sub)
             alphabet = _alphabet(plan)
             failed = set()
+            fresh_each = plan["alpha"][0] == "inplace"  # in-place mutations may reach schema-owned objects
             for seq in _selected(plan, len(alphabet), tier):
                 if any(seq[:k] in failed for k in range(len(seq))):
                     continue
-                _evaluate(rec, bt, plan, alphabet, seq, failed)
+                if fresh_each:
+                    bt = Built(plan["top"], sub, populate=False)
+                bt = _evaluate(rec, bt, plan, alphabet, seq, failed)
         if tier != "quick":
             plans = _plan(tier)
             while not rec.out_of_time():
@@ -684,30 +776,47 @@ def rac(tier, seed):
                 alphabet = _alphabet(plan)
                 for _ in range(300):
                     seq = tuple(rec.rng.randrange(len(alphabet)) for _ in range(rec.rng.randrange(5, 7)))
-                    _evaluate(rec, bt, plan, alphabet, seq, set())
+                    bt = _evaluate(rec, bt, plan, alphabet, seq, set())
     return rec.result(exhaustive=False)
 
 
 def _evaluate(rec, bt, plan, alphabet, seq, failed):
+    """run one sequence; returns the schema materialisation to use for the next sequence"""
     ops = [alphabet[i] for i in seq]
     status, info = run_sequence(bt, plan["top"], ops)
     rec.case(key=(plan["label"], seq), nontrivial=status != "skip",
              sample={"schema": plan["label"], "ops": ops, "result": status} if (len(seq) == 3 and rec.evaluations % 5003 == 0) else None)
-    if status == "fail":
-        failed.add(seq)
-        aspect, msg = info
-        last = ops[-1]["op"] if ops else None
-        obligation = OBLIGATION[last]
-        if aspect == "frame" or (last == "reset" and aspect.endswith("other-field")):
-            obligation = "support:reset_value/frame:C12.touches-no-other-field"
-        rec.violation(obligation=obligation, what="[%s] after %s: %s" % (plan["label"], [o["op"] for o in ops], msg),
-                      witness_key="%s:%s:%s" % (plan["wit"], last or "fresh", aspect),
-                      replay=json.loads(json.dumps({"driver": PID, "label": plan["label"], "spec": plan["top"], "ops": ops})))
+    if status != "fail":
+        bt.history.append(ops)
+        return bt
+    failed.add(seq)
+    # confirm on a pristine materialisation of the schema: the replay must be self-contained
+    fresh = Built(plan["top"], bt.tmp, populate=False)
+    status2, info2 = run_sequence(fresh, plan["top"], ops)
+    history = []
+    if status2 == "fail":
+        info = info2
+    else:
+        history = list(bt.history)  # the failure needs the earlier sequences run on the same schema object
+    aspect, msg = info
+    last = ops[-1]["op"] if ops else None
+    obligation = OBLIGATION[last]
+    if aspect == "frame" or (last == "reset" and aspect.endswith("other-field")):
+        obligation = "support:reset_value/frame:C12.touches-no-other-field"
+    rec.violation(obligation=obligation,
+                  what="[%s] after %s%s: %s" % (plan["label"], [o["op"] for o in ops],
+                                                " (and %d earlier sequences on the same schema object)" % len(history) if history else "", msg),
+                  witness_key="%s:%s:%s%s" % (plan["wit"], last or "fresh", aspect, ":history-dependent" if history else ""),
+                  replay=json.loads(json.dumps({"driver": PID, "label": plan["label"], "spec": plan["top"], "ops": ops,
+                                                "history": history})))
+    return Built(plan["top"], bt.tmp, populate=False)  # never carry a possibly contaminated schema on
 
 
 def replay(case):
     with sandbox() as tmp:
         bt = Built(case["spec"], tmp)
+        for earlier in case.get("history") or []:
+            run_sequence(bt, case["spec"], earlier)
         status, info = run_sequence(bt, case["spec"], case["ops"])
     return {"fails": status == "fail",
             "expected": "every field matches the reference model (value, is_value_defined) after the sequence",
